@@ -134,13 +134,19 @@ CONFIG["C02"] = {
     "assumptions": ["the position-grid and rotation-grid matrices themselves are the subject of C03-C06"],
 }
 CONFIG["C05"] = {
-    "level": "other", "proof": True, "rtc": True,
-    "explanation": "Proved (symbolic n_o, T >= 1): PositionGrid.get_all_position_volumes = area_o (R_k^3 - R_{k-1}^3)/3 in position order, "
-                   "with the shell boundaries of contract C16 (midpoints, half last increment, single radius doubled) and the "
-                   "combination helper of contract C09; telescoping step lemma. Bounded: adjacency, borders, distances and all sums "
-                   "entrywise on real grids (three algorithms, N 4..42 quick / 4..162 thorough, six radial text forms).",
-    "trusted_base": [NUMPY, "ASSUMED callee contract (C03 post): direction-grid areas are positive"],
-    "assumptions": ["_get_N_N_position_array (diags/bmat/per-shell scaling) is checked bounded only", "sum linearity over cells is not proved"],
+    "level": "other", "proof": True, "rtc": True, "proof_timeout": 3000,
+    "explanation": "Proved (symbolic n_o >= 1, T >= 1, modulo the C03 contract of the direction grid): "
+                   "PositionGrid.get_all_position_volumes = area_o (R_k^3 - R_{k-1}^3)/3, and PositionGrid._get_N_N_position_array "
+                   "for adjacency, borders and distances: every entry (i,j) equals the statement's formula -- radially adjacent "
+                   "cells on the same ray (area_o R_k^2 resp. r_{k+1}-r_k), same-shell cells adjacent on the sphere "
+                   "(arc (R_k^2-R_{k-1}^2)/2 resp. r_k angle), and zero for all other pairs (no other neighbours) -- with loop "
+                   "invariants for the radial-face list and the per-shell scaling of the block matrix, the block-diagonal "
+                   "placement lemma, and the shell boundaries of contract C16. Bounded only: the sum clauses (shell volumes, "
+                   "total volume, 4 pi R_k^2), real grids entrywise, same-process sequences across algorithms.",
+    "trusted_base": [NUMPY, SCIPY_SPARSE + "; diags with offsets/shape (truncation, scalar broadcast), bmat (block placement, stored "
+                     "entries = non-zeros), masked in-place updates", "ASSUMED callee contract (C03 post): direction-grid adjacency "
+                     "symmetric 0/1 with empty diagonal, arcs/angles positive exactly on it, areas positive"],
+    "assumptions": ["sum linearity over cells is not proved (sum clauses are bounded)"],
 }
 CONFIG["C12"] = {
     "level": "other", "proof": True, "rtc": True,
